@@ -197,6 +197,14 @@ def run_conn(exe, seed, drv_model=None):
                                   "calls, %s" % (plan, line, want_calls, "the stream, nothing closed" if last == 0 else
                                                  "`could not connect socket: %s` and the descriptor closed exactly once" % os.strerror(last))))
                 plans.append((plan, kv))
+            elif line.startswith("inetd "):
+                n += 1
+                stats["duplex_redirections"] = stats.get("duplex_redirections", 0) + 1
+                want = {"A": ("5", "o:ping-A|"), "B": ("9", "e:ping-B|"), "C": ("0", "o:ping-C|e:ping-C|"), "D": ("3", "o:D|e:D|")}.get(t[1])
+                if want and (kv.get("result") != want[0] or kv.get("peer") != want[1]):
+                    fails.append(("spawn-duplex-stream", "os/execute with ONE connected socket as the child's %s (inetd style): exit status / raised = %s, "
+                                  "the peer received %r; expected exit status %s and %r -- a descriptor the child still needs was closed or "
+                                  "mis-wired by the file actions" % (kv.get("keys"), kv.get("result"), kv.get("peer"), want[0], want[1])))
             elif line.startswith("acceptburst "):
                 n += 1
                 stats["accept_bursts"] += 1
